@@ -77,6 +77,23 @@ def trigger_event_rules(A, fl, rule, cls_key='server'):
             A.check(not bad, rule + '.containment', '%s: the catch-all does not re-raise'
                     % fl['name'], A.site(fi, h), key='%s-handler-reraise' % fl['name'],
                     behaviour='handler exceptions propagate into the engine')
+            # beside the catch-all, the only clause that may swallow an exception of the
+            # handler without a verdict is the one for task cancellation
+            from sa.cfg import _handler_names
+            for h2 in covered[0].handlers:
+                if h2 is h:
+                    continue
+                swallow = not any(isinstance(x, (ast.Return, ast.Raise))
+                                  for st in h2.body for x in ast.walk(st))
+                names = _handler_names(h2) or []
+                if swallow:
+                    A.check(names == ['CancelledError'], rule + '.connect-raises-rejects',
+                            '%s: only task cancellation is swallowed without a verdict; every '
+                            'other exception of a handler goes to the catch-all' % fl['name'],
+                            A.site(fi, h2), key='%s-handler-swallow' % fl['name'],
+                            detail=names,
+                            behaviour='a connect handler that fails with that exception (e.g. a '
+                                      'timeout of its own) lets the client in')
             if cls_key != 'server':
                 continue        # clients have no connect verdict
             rets = [x for st in h.body for x in ast.walk(st) if isinstance(x, ast.Return)]
@@ -841,6 +858,18 @@ def constructor_rules(A, rule, fresh_rule=None):
                         A.site(fi), key='ctor-ok-guard', detail=sorted(map(str, ga_)),
                         behaviour='an empty poll result is answered with the text OK instead of '
                                   'an empty payload (or JSONP wrapper)')
+            if name == '_ok' and okd and 'headers' in fields:
+                ga_ = set(PV(p).guard_atoms())
+                if ('headers is None', False) in ga_:
+                    hh = unawait(fields['headers'])
+                    kept = txt(hh) == 'headers' or (
+                        isinstance(hh, ast.BinOp) and isinstance(hh.op, ast.Add) and
+                        txt(hh.left) == 'headers')
+                    A.check(kept, rule + '.caller-headers', "_ok keeps the headers its caller "
+                            'built (the session cookie of the handshake) and only adds to them',
+                            A.site(fi), key='ctor-ok-caller-headers', detail=txt(hh),
+                            behaviour='the Set-Cookie header of the handshake response is '
+                                      'dropped on some responses (e.g. JSONP)')
             A.check(okd and set(fields) == {'status', 'headers', 'response'}, rule + '.shape',
                     '%s returns a dict with status, headers, response' % name, A.site(fi),
                     key='ctor-shape-%s' % name, detail=txt(d))
@@ -2401,3 +2430,325 @@ def driver_send_rule(A, rule):
                         behaviour='an empty binary (or text) message is silently dropped or sent '
                                   'in the wrong frame kind by this driver')
     A.floor(rule, 'driver send cases', n, 20)
+
+
+# ---------------------------------------------------------------------------------------
+# the per-session send queue is unbounded: put() never blocks
+# ---------------------------------------------------------------------------------------
+def queue_unbounded_rule(A, fl, rule):
+    """close() and send() put into the session queue from the monitor task, from request
+    workers and from application threads and assume that put() returns at once.  That holds
+    because the queue is created without a size: BaseSocket.__init__ asks for it without
+    arguments and create_queue() passes exactly the caller's arguments to the queue class."""
+    name = fl['name']
+    bs = A.func('base_socket.BaseSocket.__init__')
+    creates = [n for n in ast.walk(bs.node) if isinstance(n, ast.Call) and
+               isinstance(n.func, ast.Attribute) and n.func.attr == 'create_queue']
+    if not creates:
+        raise AnalysisError('%s: BaseSocket.__init__ does not create the queue' % rule)
+    beh = 'a dead or slow peer with a full queue blocks close()/send() in put(): the monitor ' \
+          'task hangs and no further dead peer is ever dropped'
+    for c in creates:
+        A.check(not c.args and not c.keywords, rule + '.unbounded-queue',
+                'the session queue is created without a size', A.site(bs, c),
+                key='queue-create-args', detail=txt(c), behaviour=beh)
+    srv = A.model.cls(fl['server'])
+    cq = A.model.find_method(srv, 'create_queue')
+    if cq is None:
+        raise AnalysisError('%s: create_queue vanished' % rule)
+    ps = [p for p in A.paths(A.enum(follow_handlers=False), cq, srv) if p.outcome == 'return']
+    A.floor(rule, '%s create_queue paths' % name, len(ps), 1)
+    for p in ps:
+        v = PV(p)
+        c = unawait(p.value)
+        ok = isinstance(c, ast.Call) and [txt(a) for a in c.args] == ['*args'] and \
+            [(k.arg, txt(k.value)) for k in c.keywords] == [(None, 'kwargs')] and \
+            txt(c.func) in ("self._async['queue']", 'asyncio.Queue') and \
+            not [e for e in v.ev if e.kind in ('write', 'call') and 'kwargs' in txt(e.expr)
+                 and e.expr is not p.value and txt(e.expr) != txt(p.value)]
+        A.check(ok, rule + '.unbounded-queue', '%s create_queue() passes exactly the caller\'s '
+                'arguments to the queue class (no size of its own)' % name, A.site(cq),
+                key='%s-create-queue-passthrough' % name, detail=v.describe(), behaviour=beh)
+
+
+def last_ping_writers_rule(A, fl, rule):
+    """WHO-MAY write last_ping: the constructor (None) and _send_ping (None while waiting,
+    then the send time).  Anything else that clears it disarms the deadline."""
+    name = fl['name']
+    sock = A.model.cls(fl['socket'])
+    n = 0
+    for k in A.model.mro(sock):
+        for m in k.methods.values():
+            for node in ast.walk(m.node):
+                tg = []
+                if isinstance(node, ast.Assign):
+                    tg = node.targets
+                elif isinstance(node, (ast.AugAssign, ast.AnnAssign)):
+                    tg = [node.target]
+                for t in tg:
+                    if isinstance(t, ast.Attribute) and t.attr == 'last_ping':
+                        n += 1
+                        A.check(m.name in ('__init__', '_send_ping'), rule + '.deadline-owner',
+                                '%s: last_ping is written only by the constructor and by '
+                                '_send_ping' % name, A.site(m, node),
+                                key='%s-last-ping-writer:%s' % (name, m.name),
+                                detail='%s writes %s' % (m.qualname, ast.unparse(node)),
+                                behaviour='the heartbeat deadline is disarmed (or moved) by '
+                                          'something else than the PING that arms it: a silent '
+                                          'peer is never dropped')
+    A.floor(rule, '%s last_ping writers' % name, n, 2)
+
+
+def sweep_complete_rule(A, fl, rule):
+    """The monitor's pass over the snapshot is not cut short: the only ways out of the for
+    loop are its end and the stop signal."""
+    fi = A.func(fl['server'] + '._service_task')
+    n = 0
+    for loop in [x for x in ast.walk(fi.node) if isinstance(x, (ast.For, ast.AsyncFor))
+                 and 'self.sockets' in ast.unparse(x.iter)]:
+        n += 1
+        brk = []
+
+        def rec(node, depth):
+            for ch in ast.iter_child_nodes(node):
+                if isinstance(ch, (ast.FunctionDef, ast.AsyncFunctionDef, ast.Lambda)):
+                    continue
+                if isinstance(ch, (ast.For, ast.AsyncFor, ast.While)):
+                    rec(ch, depth + 1)
+                    continue
+                if isinstance(ch, ast.Break) and depth == 0:
+                    brk.append(ch)
+                if isinstance(ch, ast.Return):
+                    brk.append(ch)
+                rec(ch, depth)
+        for st in loop.body:
+            if isinstance(st, (ast.Break, ast.Return)):
+                brk.append(st)
+            rec(st, 0)
+        # leaving because the stop signal was given is the one legitimate way out
+        pm_ = parents_map(loop)
+        keep = []
+        for b in brk:
+            cur, stop = b, False
+            while cur in pm_:
+                cur = pm_[cur]
+                if isinstance(cur, ast.If) and 'service_task_event' in ast.unparse(cur.test):
+                    stop = True
+                    break
+            if not stop:
+                keep.append(b)
+        brk = keep
+        A.check(not brk, rule + '.sweep', '%s: a pass of the monitor visits every session of its '
+                'snapshot (no break / return inside the pass)' % fl['name'], A.site(fi, loop),
+                key='%s-sweep-cut-short' % fl['name'],
+                detail=[ast.unparse(b) + ' @L%d' % b.lineno for b in brk],
+                behaviour='sessions late in the table are never checked while clients keep '
+                          'connecting: a dead peer stays forever')
+    A.floor(rule, '%s monitor passes over the session table' % fl['name'], n, 1)
+
+
+# ---------------------------------------------------------------------------------------
+# constructor: how configuration values are stored
+# ---------------------------------------------------------------------------------------
+def _config_slice(A, fi, word, params):
+    """The top-level statements of the constructor that mention `word`, as a function."""
+    stmts = [st for st in fi.node.body if word in ast.unparse(st) and
+             not isinstance(st, ast.Expr) or (isinstance(st, ast.Expr) and word in
+                                              ast.unparse(st) and
+                                              not isinstance(st.value, ast.Constant))]
+    stmts = [st for st in stmts if not (isinstance(st, ast.Expr) and
+                                        'logger' in ast.unparse(st))]
+    if not stmts:
+        raise AnalysisError('constructor statements about %s vanished' % word)
+    return _slice_func(A, fi, stmts, 'cfg_' + word, params)
+
+
+def config_rules(A, rule, which=('transports', 'cors')):
+    fi = A.func('base_server.BaseServer.__init__')
+    bs = A.model.cls('base_server.BaseServer')
+    if 'cors' in which:
+        # the origin policy is stored exactly as configured: its kind (None / '*' / one origin
+        # / list / predicate) is interpreted per request by _cors_allowed_origins
+        for word in ('cors_allowed_origins', 'cors_credentials'):
+            sl = _config_slice(A, fi, word, ['self', word])
+            ps = [p for p in A.paths(A.enum(follow_handlers=False), sl, bs) if p.outcome != 'cut']
+            A.floor(rule, 'constructor paths storing %s' % word, len(ps), 1)
+            for p in ps:
+                v = PV(p)
+                w = [val for i, val in v.writes('self.' + word)]
+                A.check(p.outcome == 'return' and w and w[-1] == word, rule + '.config',
+                        'the constructor stores %s exactly as given' % word, A.site(fi),
+                        key='ctor-config-%s' % word, detail=v.describe(),
+                        behaviour='a configured origin (list) is rewritten at start-up: e.g. a '
+                                  "single origin containing '*' becomes allow-all")
+    if 'transports' in which:
+        sl = _config_slice(A, fi, 'transports', ['self', 'transports'])
+        cases = [('None', Const(None)), ('one transport name', Kind('str', truthy=True, empty=False)),
+                 ('a list of names', Kind('list'))]
+        for label, val in cases:
+            A.counters['cases'] += 1
+            asm = {'transports': val}
+            ev = AbsEval(assume_from(asm))
+            ps = [p for p in A.paths(A.enum(assume=assume_from(asm), follow_handlers=False),
+                                     sl, bs) if p.outcome == 'return']
+            A.floor(rule, 'constructor paths for transports=%s' % label, len(ps), 1)
+            for p in ps:
+                v = PV(p)
+                wr = [e.expr for e in v.ev if e.kind == 'write' and
+                      txt(e.target) == 'self.transports']
+                ok = bool(wr)
+                val_ = _py_select(wr[-1], ev) if wr else None
+                if ok and label == 'None':
+                    # nothing configured: every valid transport
+                    ok = txt(val_ if val_ is not None else wr[-1]) in (
+                        'self.valid_transports', 'None or self.valid_transports')
+                elif ok:
+                    # configured: the valid names among the configured ones, as a list
+                    cand = val_ if val_ is not None else unawait(wr[-1])
+                    if isinstance(cand, ast.BoolOp) and isinstance(cand.op, ast.Or) and \
+                            txt(cand.values[-1]) == 'self.valid_transports':
+                        cand = cand.values[0]
+                    src = '[transports]' if label.startswith('one') else 'transports'
+                    ok = isinstance(cand, ast.ListComp) and len(cand.generators) == 1 and \
+                        txt(cand.generators[0].iter) == src and \
+                        txt(cand.elt) == txt(cand.generators[0].target) and \
+                        [txt(i) for i in cand.generators[0].ifs] == [
+                            '%s in self.valid_transports' % txt(cand.elt)]
+                A.check(ok, rule + '.config', 'the constructor stores the configured transports '
+                        'as the list of valid names among them (%s)' % label, A.site(fi),
+                        key='ctor-config-transports', detail=[txt(x) for x in wr] + v.describe(),
+                        behaviour="with transports='polling' the admission test "
+                                  "'transport in self.transports' becomes a substring test: "
+                                  "transport=poll or transport=ling is let in")
+
+
+def middleware_passthrough_rule(A, rule):
+    """The WSGI/ASGI middleware hands the request to the Engine.IO server as it came: it does
+    not rewrite what the admission chain reads (method, query, headers)."""
+    for qual, var, allowed in (('middleware.WSGIApp.__call__', 'environ', ("'eventlet.input'",)),
+                               ('async_drivers.asgi.ASGIApp.__call__', 'scope', ())):
+        fi = A.func(qual)
+        n = 0
+        for node in ast.walk(fi.node):
+            tg = []
+            if isinstance(node, ast.Assign):
+                tg = node.targets
+            elif isinstance(node, (ast.AugAssign, ast.AnnAssign)):
+                tg = [node.target]
+            elif isinstance(node, ast.Delete):
+                tg = node.targets
+            elif isinstance(node, ast.Call) and isinstance(node.func, ast.Attribute) and \
+                    isinstance(node.func.value, ast.Name) and node.func.value.id == var and \
+                    node.func.attr in ('update', 'pop', 'setdefault', 'clear', '__setitem__'):
+                tg = [node]
+            for t in tg:
+                if isinstance(t, ast.Subscript) and isinstance(t.value, ast.Name) and \
+                        t.value.id == var:
+                    n += 1
+                    A.check(txt(t.slice) in allowed, rule + '.passthrough',
+                            '%s does not rewrite the request it dispatches' % qual.split('.')[-2],
+                            A.site(fi, node), key='middleware-rewrites:%s' % qual.split('.')[-2],
+                            detail=ast.unparse(node),
+                            behaviour='the Engine.IO server sees another request than the one '
+                                      'the client made (e.g. HEAD served as GET: a HEAD opens a '
+                                      'session or drains a queue)')
+                elif isinstance(t, ast.Call):
+                    A.violated(rule + '.passthrough', '%s does not rewrite the request it '
+                               'dispatches' % qual.split('.')[-2], A.site(fi, node),
+                               key='middleware-rewrites:%s' % qual.split('.')[-2],
+                               detail=ast.unparse(node))
+        A.ok(rule + '.passthrough', '%s: %d writes to the request mapping, all allowed'
+             % (qual, n), A.site(fi))
+
+
+def cors_per_response_rule(A, fl, rule):
+    """The CORS headers of a response are computed from *this* request, on every response,
+    and are added to a copy of the response's header list."""
+    name = fl['name']
+    beh = 'CORS headers computed for one request are replayed on another (refused origin, ' \
+          'other host, other server)'
+    if name == 'asyncio':
+        fi = A.func(fl['server'] + '._make_response')
+        srv = A.model.cls(fl['server'])
+        ps = [p for p in A.paths(A.enum(follow_handlers=False), fi, srv) if p.outcome == 'return']
+        A.floor(rule, 'asyncio _make_response paths', len(ps), 2)
+        for p in ps:
+            v = PV(p)
+            cors = v.calls('self._cors_headers(environ)')
+            mk = [(i, c) for i, c in v.calls("self._async['make_response'](_s, _h, _b, _e)")]
+            ok = len(cors) == 1 and len(mk) == 1 and cors[0][0] < mk[0][0] and \
+                txt(mk[0][1]['h']) == "response_dict['headers'] + self._cors_headers(environ)"
+            A.check(ok, rule + '.cors-per-response', 'asyncio: every response gets the CORS '
+                    'headers computed from its own request, appended to a copy of its header '
+                    'list', A.site(fi), key='asyncio-cors-per-response', detail=v.describe(),
+                    behaviour=beh)
+    else:
+        fi, srv, ps = request_paths(A, fl)
+        n = 0
+        for p in ps:
+            if p.outcome != 'return':
+                continue
+            v = PV(p)
+            sr = v.calls('start_response(_s, _h)', depth=0)
+            if not sr:
+                continue
+            n += 1
+            cors = [i for i, _ in v.calls('self._cors_headers(environ)')]
+            h = txt(sr[-1][1]['h'])
+            ok = len(cors) == 1 and h == "r['headers'] + self._cors_headers(environ)" and \
+                not any(e.kind == 'write' and txt(e.target) == "r['headers']" and
+                        '_cors_headers' in txt(e.expr) for e in v.ev)
+            if not cors and h == "r['headers']":
+                ok = True       # an early refusal carries no CORS header at all
+            A.check(ok, rule + '.cors-per-response', 'threaded: every response gets the CORS '
+                    'headers computed from its own request, appended to a copy of its header '
+                    'list', A.site(fi, v.node(sr[-1][0])), key='threaded-cors-per-response',
+                    detail=[h] + v.describe(8), behaviour=beh)
+        A.floor(rule, 'threaded responding paths', n, 20)
+
+
+def limit_sites_rule(A, rule):
+    """Where the inbound limits live: the packet-count limit is the class attribute
+    Payload.max_decode_packets that decode() reads (nothing stores a per-instance copy), and
+    the aiohttp gateway is created without a message size limit of its own (the engine applies
+    max_http_buffer_size itself, with its own comparison)."""
+    pl = A.model.cls('payload.Payload')
+    n = 0
+    for m in pl.methods.values():
+        for node in ast.walk(m.node):
+            tg = node.targets if isinstance(node, ast.Assign) else (
+                [node.target] if isinstance(node, (ast.AugAssign, ast.AnnAssign)) else [])
+            for t in tg:
+                if isinstance(t, ast.Attribute) and t.attr == 'max_decode_packets':
+                    A.violated(rule + '.limit-site', 'Payload instances do not carry their own '
+                               'copy of max_decode_packets', A.site(m, node),
+                               key='payload-instance-limit', detail=ast.unparse(node),
+                               behaviour='a limit configured on the class after import is '
+                                         'ignored: more packets than configured are dispatched')
+                    n += 1
+    dec = A.func('payload.Payload.decode')
+    reads = [x for x in ast.walk(dec.node) if isinstance(x, ast.Attribute) and
+             x.attr == 'max_decode_packets']
+    A.check(bool(reads) and all(txt(x.value) in ('self', 'Payload', 'type(self)', 'self.__class__')
+                                for x in reads), rule + '.limit-site',
+            'Payload.decode compares with the class attribute max_decode_packets',
+            A.site(dec), key='payload-limit-read', detail=[txt(x) for x in reads])
+    if n == 0:
+        A.ok(rule + '.limit-site', 'no method of Payload assigns max_decode_packets',
+             'src/engineio/payload.py')
+    mi = A.model.modules.get('async_drivers.aiohttp')
+    if mi is None:
+        raise AnalysisError('%s: aiohttp driver vanished' % rule)
+    k = 0
+    for node in ast.walk(mi.tree):
+        if isinstance(node, ast.Call) and txt(node.func).endswith('WebSocketResponse'):
+            k += 1
+            kw = {x.arg: x.value for x in node.keywords}
+            A.check('max_msg_size' in kw and match('0', kw['max_msg_size']) is not None,
+                    rule + '.driver-limit', 'aiohttp driver: the gateway WebSocket is created '
+                    'with max_msg_size=0 (no second size limit with another definition)',
+                    'src/engineio/async_drivers/aiohttp.py:%d' % node.lineno,
+                    key='aiohttp-max-msg-size', detail=txt(node),
+                    behaviour='frames of exactly the limit (or multi-byte text below it) are '
+                              'rejected by the gateway although the engine would accept them')
+    A.floor(rule, 'aiohttp WebSocketResponse constructions', k, 1)
